@@ -349,6 +349,16 @@ impl Minimizer {
                         Action::Exit { probe_late: true } => {
                             alts.push(Action::Exit { probe_late: false });
                         }
+                        Action::Crowd { n, m } => {
+                            let mut k = 1u16;
+                            while k < *n {
+                                alts.push(Action::Crowd { n: k, m: *m });
+                                k = k.saturating_mul(2);
+                            }
+                            if *n > 1 {
+                                alts.push(Action::Crowd { n: *n - 1, m: *m });
+                            }
+                        }
                         Action::Churn { n, m } => {
                             // fewer short-lived threads: 1, 2, 4, … then n-1
                             let mut k = 1u16;
